@@ -25,6 +25,7 @@ def main():
             models.floats_as_reals()
         jobs = {j.id: j for j in mod.jobs(tier)}
         job = jobs[job_id]
+        hlib.snapshot_library_state()
         if getattr(job, 'ieee', False):
             models.floats_as_reals()
             models.ieee_rounding()
